@@ -319,6 +319,11 @@ func isOrderedByIndex(plan planNode) bool {
 		return false
 	}
 
+	// live and deleted documents come from two fetchers that are merged by document id
+	if scan.showDeleted {
+		return false
+	}
+
 	// the index iterator of an _in filter walks the listed values in the order they are given,
 	// not in the order of the index
 	if hasInCondition(scan.filter) {
